@@ -214,40 +214,52 @@ def enqueueAfter (s : Sys) (key : String) (t : Int) : Sys :=
 pods of this engine (no DeadlineExceeded without start time) -/
 def podTask (p : PodObj) : Option Task := p.pod.task
 
-/-- `taskMgr.Client().Get`: the Pod as it is on the server right now -/
-def liveGetTask (s : Sys) (name : String) : Option Task :=
+/-- `isControlledByJob(rj, task)`: the object's controller owner reference is of kind Job and
+carries the Job's uid (`ownerUid` is exactly that reference's uid) -/
+def isControlledByJob (jo : JobObj) (p : PodObj) : Bool := p.ownerUid = some jo.uid
+
+/-- `taskMgr.Client().Get` as `getTaskForRef` and the finalizer use it: the Pod as it is on the
+server right now; an object that is not controlled by the Job is not the task (the task is gone,
+something else took its name), checked AFTER the NotFound handling -/
+def liveGetTask (s : Sys) (jo : JobObj) (name : String) : Option Task :=
   match findPod s.pods name with
-  | some p => podTask p
+  | some p => if !isControlledByJob jo p then none else podTask p
   | none => none
 
 /-- `getTaskForRef`: the cached Pod, unless it is older than what was recorded (the ref is
 finished but the cached Pod is not: the cache lags behind an earlier live read) — then, and for
 an unfinished ref that is missing from the cache, a live GET.  A finished ref missing from the
-cache is gone. -/
-def getTaskForRef (s : Sys) (ref : TaskRef) : Option Task :=
+cache is gone.  A cached object with the ref's name that is not controlled by the Job is not the
+task (`cached := err == nil && isControlledByJob(rj, task)`): it is treated like a cache MISS —
+live GET for an unfinished ref, gone for a finished one; the object the live GET returns is
+subject to the same ownership test. -/
+def getTaskForRef (s : Sys) (jo : JobObj) (ref : TaskRef) : Option Task :=
   match findPod s.podCache ref.name with
   | some p =>
+    if !isControlledByJob jo p then
+      (if ref.finishTimestamp.isSome then none else liveGetTask s jo ref.name)
+    else
     match podTask p with
     | none => none
     | some t =>
       if ref.finishTimestamp.isNone || t.ref.finishTimestamp.isSome then some t
-      else liveGetTask s ref.name
+      else liveGetTask s jo ref.name
   | none =>
     if ref.finishTimestamp.isSome then none
-    else liveGetTask s ref.name
+    else liveGetTask s jo ref.name
 
-def tasksForRefs (s : Sys) (refs : List TaskRef) : List Task :=
-  refs.filterMap (getTaskForRef s)
+def tasksForRefs (s : Sys) (jo : JobObj) (refs : List TaskRef) : List Task :=
+  refs.filterMap (getTaskForRef s jo)
 
 /-- the finalizer's lookup: like `getTaskForRef`, but an absence is always confirmed with a live
-GET (fix 27db662) -/
-def getTaskForRefConfirmed (s : Sys) (ref : TaskRef) : Option Task :=
-  match getTaskForRef s ref with
+GET (fix 27db662); an object found there that is not controlled by the Job is ignored too -/
+def getTaskForRefConfirmed (s : Sys) (jo : JobObj) (ref : TaskRef) : Option Task :=
+  match getTaskForRef s jo ref with
   | some t => some t
-  | none => liveGetTask s ref.name
+  | none => liveGetTask s jo ref.name
 
-def tasksForRefsConfirmed (s : Sys) (refs : List TaskRef) : List Task :=
-  refs.filterMap (getTaskForRefConfirmed s)
+def tasksForRefsConfirmed (s : Sys) (jo : JobObj) (refs : List TaskRef) : List Task :=
+  refs.filterMap (getTaskForRefConfirmed s jo)
 
 /-- The deletion override of `UpdateJobStatusFromTaskRefs` takes the ADDRESS of the Running
 condition's `LatestRunningTimestamp` (a value) and of a local copy of its
@@ -409,7 +421,7 @@ def handleForceDelete (s : Sys) (jo : JobObj) (rj : Job) (tasks : List Task) : S
 
 /-- `syncJobTasks`; `none` = returned an error (the caller keeps the original Job) -/
 def syncJobTasks (s : Sys) (jo : JobObj) (rj : Job) : Sys × Option Job :=
-  let tasks := tasksForRefs s rj.status.tasks
+  let tasks := tasksForRefs s jo rj.status.tasks
   match syncCreateTasks s jo rj tasks with
   | (s1, none) => (s1, none)
   | (s1, some (rj1, tasks1)) =>
@@ -442,7 +454,7 @@ def handleTTL (s : Sys) (jo : JobObj) (rj : Job) : Sys × Bool :=
 still be found (cache, absence confirmed by a live GET), then `adoptUnrecordedTasks`: the tasks
 that were created but not recorded (pod cache; labelled with and controlled by this Job) -/
 def finalizerTasks (s : Sys) (jo : JobObj) (rj : Job) : List Task :=
-  adoptUnrecordedTasks s { jo with job := rj } (tasksForRefsConfirmed s rj.status.tasks)
+  adoptUnrecordedTasks s { jo with job := rj } (tasksForRefsConfirmed s jo rj.status.tasks)
 
 /-- `handleFinishFinalizer`; result: the Job and finalizer flag to write, or `none` on error -/
 def handleFinalizer (s : Sys) (jo : JobObj) (rj : Job) (finalizer : Bool) : Sys × Option (Job × Bool) :=
